@@ -224,6 +224,44 @@ def generate(rng, n, ntypes=5, features=None, prefix="W", maxdepth=3):
     return [g.module("%s%d" % (prefix, i), ntypes) for i in range(n)]
 
 
+def boundary_module(name="WB0"):
+    """hand-made module + hand-made DER values for corners that asn_random_fill reaches rarely: every item of an
+    ENUMERATED with two extension items, extension alternatives/additions of CHOICE and SEQUENCE, BIT STRINGs with
+    1..7 unused bits (last bit 1: the trailing-zero finding stays out), the REAL special values and a few exact ones.
+    AUTOMATIC TAGS.  Returns a module dict with "fixed_values" {type: [der hex]}"""
+    def comp(name, t, optional=False):
+        return {"name": name, "tag": None, "type": t, "optional": optional, "default": None, "self": False}
+    enum = {"k": "ENUMERATED", "items": [("a", 0), ("b", 5)], "ext": True, "extitems": [("x", 10), ("y", 20)]}
+    enum2 = {"k": "ENUMERATED", "items": [("p", 1)], "ext": True, "extitems": [("q", 2)]}
+    bits = lambda c: dict({"k": "BIT STRING", "cons": c}, **dict(zip(("smin", "smax", "sext"), parse_size_cons(c))))
+    ia5 = {"k": "STRING", "stype": "IA5String", "cons": "", "smin": 0, "smax": None, "sext": False, "alpha": ""}
+    integer = {"k": "INTEGER", "cons": "", "lo": None, "hi": None, "ext": False, "multi": False}
+    asts = {
+        "W1": enum,
+        "W2": {"k": "SEQUENCE", "extpos": 2, "comps": [comp("c1", {"k": "REF", "name": "W1"}), comp("c2", enum2, True), comp("c3", {"k": "REF", "name": "W1"}, True)]},
+        "W3": bits(""),
+        "W4": bits("(SIZE(1..2,...))"),
+        "W5": {"k": "REAL"},
+        "W6": {"k": "CHOICE", "extpos": 1, "comps": [comp("c4", {"k": "NULL"}), comp("c5", integer), comp("c6", {"k": "BOOLEAN"})]},
+        "W7": {"k": "SEQUENCE", "extpos": 1, "comps": [comp("c7", integer), comp("c8", ia5, True), comp("c9", {"k": "BOOLEAN"}, True)]},
+        "W8": {"k": "SEQUENCE OF", "cons": "", "smin": 0, "smax": None, "sext": False, "elem": {"k": "REF", "name": "W1"}},
+    }
+    names = sorted(asts)
+    text = "%s DEFINITIONS AUTOMATIC TAGS ::= BEGIN\n" % name + "".join("  %s ::= %s\n" % (n, render(asts[n])) for n in names) + "END\n"
+    fixed = {
+        "W1": ["0a0100", "0a0105", "0a010a", "0a0114"],
+        "W2": ["3003800100", "300980010a810102820114", "3006800105820100", "3006800114810101"],
+        "W3": ["030100", "03020780", "030201fe", "030303fff8", "030204f0", "030205e8", "030206c0", "030202fc"],
+        "W4": ["03020780", "030206c0"],      # sizes outside the root of SIZE(1..2,...) are rejected by the generated checker (C08)
+        "W5": ["0900", "0903800003", "090380fb05", "0903c00003", "0909c0d003243f6a8885a3", "090140", "090141", "090142", "090380ff01", "0903800a01"],
+        "W6": ["8000", "810105", "8102ff7f", "8201ff", "820100"],
+        "W7": ["3003800107", "300780010781026162", "300a80010781026162820100", "30068001078201ff"],
+        "W8": ["3000", "300c0a01000a01050a010a0a0114", "30030a0114"],
+    }
+    return {"name": name, "default": "AUTOMATIC", "defs": [(n, None) for n in names], "trees": {}, "asts": asts, "text": text,
+            "wide": True, "fixed_values": fixed}
+
+
 # ---------------------------------------------------------------------------
 # running a driver that may crash or hang on single command lines
 
